@@ -381,6 +381,67 @@ macro_rules! invert_native {
 invert_native!(invert_native_f64, f64, -1070, -1030, -1090, 900);
 invert_native!(invert_native_f32, f32, -147, -128, -160, 100);
 
+
+/// native floats, exactly singular by structure: one column is +-2^k times another (so every pair of Leibniz terms
+/// that cancels in exact arithmetic is the same float product twice); the entries themselves are generic floats whose
+/// products are inexact. determinant() must be exactly zero and invert() None - a singular matrix has no inverse,
+/// however its determinant is spelled.
+macro_rules! singular_native {
+    ($fname:ident, $F:ty) => {
+        fn $fname(d: &mut Draw) -> Outcome {
+            type F = $F;
+            let n = d.int(2, 3) as usize;
+            let mut t = RM::<F>::from_fn(n, |_, _| 0.0);
+            for c in 0..n {
+                for r in 0..n {
+                    t.e[c][r] = match d.int(0, 5) {
+                        0 => d.pick(&[0.1, 0.3, 1.0 / 3.0, 0.7, -0.1, 1e-3, 2.5, -7.0, 1e5]) as F,
+                        1 => d.int(-9, 9) as F,
+                        _ => d.f64_slog(1e-3, 1e3) as F,
+                    };
+                }
+            }
+            let (i, mut j) = (d.below(n), d.below(n));
+            if i == j {
+                j = (i + 1) % n;
+            }
+            let k = (2.0 as F).powi(d.int(-3, 3) as i32) * if d.bool() { 1.0 } else { -1.0 };
+            let rows = n == 2 && d.bool();
+            for r in 0..n {
+                if rows {
+                    t.e[r][j] = k * t.e[r][i];
+                } else {
+                    t.e[j][r] = k * t.e[i][r];
+                }
+            }
+            d.note("M", &t);
+            d.note("dependent pair, factor, rows?", &((i, j), k, rows));
+            macro_rules! go {
+                ($mk:ident) => {{
+                    let m = $mk(&t);
+                    let det = m.determinant();
+                    ensure!(det == 0.0, "singular-determinant-not-zero", "{}x{} matrix with column {} = {} * column {}: determinant() = {:e}", n, n, j, k, i, det);
+                    ensure!(m.invert().is_none(), "singular-has-inverse", "{}x{} exactly singular matrix: invert() = {:?}", n, n, m.invert());
+                    ensure!(!m.is_invertible(), "singular-is_invertible", "{}x{} exactly singular matrix: is_invertible() is true", n, n);
+                    ensure!(m.transpose().determinant() == 0.0 || n > 2, "singular-transpose-determinant", "det of the transpose = {:e}", m.transpose().determinant());
+                }};
+            }
+            match n {
+                2 => go!(mk_m2),
+                3 => {
+                    let m = mk_m3(&t);
+                    ensure!(Transform::<Point2<F>>::inverse_transform(&m).is_none() && Transform::<Point3<F>>::inverse_transform(&m).is_none(), "singular-inverse_transform", "Matrix3::inverse_transform of an exactly singular matrix is Some");
+                    go!(mk_m3)
+                }
+                _ => unreachable!(),
+            }
+            pass(if n == 2 { if rows { "2x2-rows" } else { "2x2-columns" } } else { "3x3" }, true)
+        }
+    };
+}
+singular_native!(singular_native_f64, f64);
+singular_native!(singular_native_f32, f32);
+
 const RULE_INV: &str = "dense invertible (all entries and all first minors non-zero), or one of the constructed singular / low-rank / tiny-determinant classes";
 const RULE_D: &str = "all entries of A and B non-zero and det A != 0";
 const RULE_T: &str = "all entries non-zero, neither operand symmetric";
@@ -420,6 +481,9 @@ pub fn property() -> Property {
     const NAT: &[(&str, u32)] = &[("all-entries-tiny", 50), ("ordinary", 200), ("subnormal-determinant", 50), ("determinant-underflowed-to-zero", 50), ("huge-determinant", 50)];
     s.push(sc!("invert_native-f64", "f64", invert_native_f64, 6000, 400_000, 64, NAT, "every generated matrix; determinant classes ordinary / subnormal / underflowed to zero / huge required", false));
     s.push(sc!("invert_native-f32", "f32", invert_native_f32, 6000, 400_000, 64, NAT, "every generated matrix; determinant classes ordinary / subnormal / underflowed to zero / huge required", false));
+    const SNG: &[(&str, u32)] = &[("2x2-rows", 100), ("2x2-columns", 100), ("3x3", 200)];
+    s.push(sc!("singular_native-f64", "f64", singular_native_f64, 4000, 300_000, 48, SNG, "every generated matrix (one column an exact power-of-two multiple of another; generic inexact entries)", false));
+    s.push(sc!("singular_native-f32", "f32", singular_native_f32, 4000, 300_000, 48, SNG, "every generated matrix (one column an exact power-of-two multiple of another; generic inexact entries)", false));
     Property {
         id: "C02",
         title: "Inverse, determinant and transpose obey the laws of linear algebra",
